@@ -6,6 +6,7 @@ Results are appended to /verif/seeded/<seed-id>/results.json."""
 import json, os, subprocess, sys, time
 
 ROOT = os.path.dirname(os.path.dirname(os.path.abspath(__file__)))
+REPO = os.environ.get('KV_REPO', '/repo')
 ALL = ['C%02d' % i for i in range(1, 21)]
 
 
@@ -25,11 +26,11 @@ def main():
     props = args[1:] or [meta['property']]
     if props == ['all']:
         props = ALL
-    st = sh(['git', '-C', '/repo', 'status', '--porcelain']).stdout.strip()
+    st = sh(['git', '-C', REPO, 'status', '--porcelain']).stdout.strip()
     if st:
-        print('refusing: /repo is not clean:\n' + st)
+        print('refusing: ' + REPO + ' is not clean:\n' + st)
         return 2
-    r = sh(['git', '-C', '/repo', 'apply', os.path.join(d, 'patch.diff')])
+    r = sh(['git', '-C', REPO, 'apply', os.path.join(d, 'patch.diff')])
     if r.returncode != 0:
         print('patch does not apply:', r.stderr)
         return 2
@@ -57,8 +58,8 @@ def main():
                           'replay': replay, 'wall_s': round(time.time() - t0, 1)}
             print(p, tier, 'rc=%d' % r.returncode, viol[0] if viol else 'no violation', flush=True)
     finally:
-        sh(['git', '-C', '/repo', 'checkout', '--', '.'])
-        sh(['git', '-C', '/repo', 'clean', '-fdq'])
+        sh(['git', '-C', REPO, 'checkout', '--', '.'])
+        sh(['git', '-C', REPO, 'clean', '-fdq'])
         # leave the harness binary built from the restored tree
         sh(['cargo', 'build', '--offline'], cwd=os.path.join(ROOT, 'harness'))
     out = os.path.join(d, 'results.json')
